@@ -43,6 +43,8 @@ pub enum Op {
     StreamMod(&'static str, Which, i32),
     /// Acknowledge with an arbitrary id list (unary, or as a control message on a stream opened for it)
     AckIds(&'static str, Vec<IdKind>, bool),
+    /// one StreamingPull control message with a deadline PER id (mixed extensions / nacks, duplicate ids)
+    StreamModPairs(&'static str, Vec<(IdKind, i32)>),
     /// ModifyAckDeadline with an arbitrary id list (unary, or as a control message on a stream opened for it)
     ModIds(&'static str, Vec<IdKind>, i32, bool),
     /// open a StreamingPull on the subscription (kept open; its deliveries are fed to the model after every step)
@@ -82,6 +84,10 @@ impl Op {
             Op::AdvBefore => m.earliest_lo().map(|lo| lo - 1 > m.now_ms).unwrap_or(false),
             Op::AdvPast => m.earliest_lo().is_some(),
             Op::StreamOpen(s, _) => m.subs.contains_key(*s),
+            Op::StreamModPairs(s, pairs) => {
+                let kinds: Vec<IdKind> = pairs.iter().map(|p| p.0).collect();
+                m.subs.get(*s).map(|sub| (!kinds.contains(&IdKind::A) && !kinds.contains(&IdKind::B) || !sub.outstanding.is_empty()) && (!kinds.contains(&IdKind::Stale) || !sub.stale_ack_ids.is_empty())).unwrap_or(false)
+            }
             Op::AckIds(s, kinds, _) | Op::ModIds(s, kinds, _, _) => {
                 m.subs.get(*s).map(|sub| (!kinds.contains(&IdKind::A) && !kinds.contains(&IdKind::B) || !sub.outstanding.is_empty()) && (!kinds.contains(&IdKind::Stale) || !sub.stale_ack_ids.is_empty())).unwrap_or(false)
             }
@@ -372,6 +378,38 @@ pub async fn apply(cx: &Ctx, st: &mut SeqState, op: &Op, unfrozen: bool) -> Resu
                 v2v(st.model.ack(s, &ids, &r), st, &ops)?;
             }
         }
+        Op::StreamModPairs(s, pairs) => {
+            let resolve = |k: &IdKind, m: &Model| match k {
+                IdKind::A => pick_id(m, s, &Which::Oldest).unwrap_or_else(|| "7777".into()),
+                IdKind::B => pick_id(m, s, &Which::Newest).unwrap_or_else(|| "7778".into()),
+                IdKind::Stale => m.subs[s].stale_ack_ids.first().cloned().unwrap_or_else(|| "7779".into()),
+                IdKind::Unknown => "9999".into(),
+                IdKind::BadX => "x".into(),
+                IdKind::BadEmpty => "".into(),
+            };
+            open_stream(cx, st, s, 1000, unfrozen).await?;
+            absorb_streams(st)?;
+            let ids: Vec<String> = pairs.iter().map(|(k, _)| resolve(k, &st.model)).collect();
+            let secs: Vec<i32> = pairs.iter().map(|(_, n)| *n).collect();
+            let tx = st.streams[s].tx.clone();
+            let req = deltio::pubsub_proto::StreamingPullRequest { modify_deadline_ack_ids: ids.clone(), modify_deadline_seconds: secs.clone(), ..Default::default() };
+            call(cx, unfrozen, "client:stream-ctl", async move { tx.send(req).await.is_ok() }).await?;
+            let ended = st.streams[s].ended.lock().unwrap().clone();
+            let malformed = ids.iter().any(|i| i.parse::<u64>().is_err()) || secs.iter().any(|n| *n < 0);
+            match (ended.as_deref(), malformed) {
+                (None, false) => {
+                    // applied one by one, in order (a later entry for the same id wins)
+                    for (id, n) in ids.iter().zip(secs.iter()) {
+                        v2v(st.model.modify(s, &[id.clone()], *n, &Ok(())), st, &ops)?;
+                    }
+                }
+                (Some("InvalidArgument"), true) => {
+                    let h = st.streams.remove(s).unwrap();
+                    h.reader.abort();
+                }
+                (e, _) => return Err(Verdict::Violation { sig: "stream/modify-pairs-wrong-answer".into(), detail: format!("control message ids {:?} seconds {:?}: stream ended with {:?}, malformed = {}", ids, secs, e, malformed) }),
+            }
+        }
         Op::ModIds(s, kinds, secs, via_stream) => {
             let ids: Vec<String> = kinds
                 .iter()
@@ -495,7 +533,7 @@ pub async fn check_world(cx: &Ctx, st: &mut SeqState) -> Result<(), Verdict> {
         }
     }
     // nothing the model deleted may still be known
-    for n in [S0, S1, S2] {
+    for n in ALL_SUBS {
         if !st.model.subs.contains_key(n) && cx.stats(n).await?.is_some() {
             return Err(Verdict::Violation { sig: "state/subscription-leaked".into(), detail: format!("{} does not exist in the model but the server still knows it after {:?}", n, st.trace) });
         }
@@ -524,7 +562,7 @@ pub async fn drain(cx: &Ctx, st: &mut SeqState) -> Result<(), Verdict> {
     }
     let names: Vec<String> = st.model.subs.keys().cloned().collect();
     for n in names {
-        let n: &'static str = [S0, S1, S2].into_iter().find(|x| *x == n).unwrap();
+        let n: &'static str = ALL_SUBS.into_iter().find(|x| *x == n).expect("subscription name known to the harness");
         for _ in 0..100 {
             if st.model.subs[n].queue.is_empty() {
                 break;
